@@ -123,7 +123,7 @@ class C03Engine(Engine):
         if tier == 'smoke':
             return [('damage', 200, 50)]
         if tier == 'thorough':
-            return [('damage', 1200000, 1000)]
+            return [('damage', 500000, 1000)]
         return [('damage', 36000, 250)]
 
     # ------------------------------------------------------------------
